@@ -9,6 +9,9 @@ import sys
 import traceback
 
 
+SUITE_PROPS = ("C01", "C02", "C07", "C15")  # output-invariant checks also judge the repository's own test forms (W-suite)
+
+
 class Ctx:
     def __init__(self, prop, tier, seed, shard, nshards, out):
         self.prop, self.tier, self.seed, self.shard, self.nshards = prop, tier, seed, shard, nshards
@@ -63,6 +66,9 @@ def main():
     mon = importlib.import_module(f"vlib.monitors.{prop}")
     try:
         mon.run_shard(ctx)
+        if prop in SUITE_PROPS and ctx.shard == ctx.nshards - 1:
+            from . import suite
+            suite.run_suite(ctx, prop)
     except Exception:
         traceback.print_exc()
         ctx._w({"t": "ctr", "k": "worker_exception", "n": 1})
